@@ -125,8 +125,12 @@ CLAIMED = {
         "from changes only the marks, the chunk checksum context, the offset and the running data checksum (validateChecksums_ctx), so the "
         "reader's invariant holds again (validations_fresh, fresh_P) and reads started there satisfy the same theorems as reads from a fresh "
         "open: reads_after_validations_sound (never other content than the decoded file) and reads_after_validations_complete (on a "
-        "well-formed file every read schedule succeeds with the exact content and close succeeds).  NOT proved: validations AFTER reads on one "
-        "context, file immutability; these are evaluated against the reference decoder on all 3^n damage subsets, all truncation lengths, "
+        "well-formed file every read schedule succeeds with the exact content and close succeeds).  VALIDATIONS AFTER READS "
+        "(Props/C09After.lean): reads keep the header and the number of marks (reads_keep), the chunk loop overwrites every mark of a "
+        "file with data (scanLoop_marks_indep), so verdict and marks of a validation are a function of header and file "
+        "(validateChecksums_indep, validateData_indep) and a validation after ANY reads that left the context without error reports what "
+        "it reports on a fresh open, mark for mark (validate_after_reads).  NOT proved: reading ON after a validation that followed a "
+        "partial read, file immutability; these are evaluated against the reference decoder on all 3^n damage subsets, all truncation lengths, "
         "validations before AND after reads.",
    design_ref="DESIGN.md section 7a",
    note="Partial: per-chunk classification, overall verdict, override and the detached rule are proved for all on-disk states; reads started after validations are proved to behave as from a fresh open; validate-after-read histories are checked. "
